@@ -21,7 +21,7 @@ func init() {
 		Rule: "tokens.Token values handed to BasicPrivateIssuer.Verify / BatchedPrivateIssuer.Verify: honestly issued tokens, every single-bit flip of every field of each, authenticator truncated/extended/empty, every token against every other key and against the issuer of the other type, " +
 			"type changed with the authenticator recomputed by the reference (must be accepted), hostile field lengths, shifted field boundaries. Oracle: Verify returns nil iff authenticator == circl FullEvaluate(key, be16(type)||nonce||context||keyid) computed by the harness from the fields as carried. " +
 			"distinct_nontrivial = distinct (issuer type, case class, field, bit or length) keys",
-		Floors:      []string{"accepted_agree", "rejected_agree", "bitflip_rejected", "other_key_rejected", "other_type_rejected", "recomputed_accepted"},
+		Floors:      []string{"accepted_agree", "rejected_agree", "bitflip_rejected", "other_key_rejected", "other_type_rejected", "recomputed_accepted", "related_derivation_rejected"},
 		Assumptions: []string{"circl VOPRF FullEvaluate is the trusted reference"},
 		Run:         runC10,
 	})
@@ -196,6 +196,37 @@ func runC10(c *core.Ctx) {
 				c10Check(c, is, t, "shifted-boundaries", false)
 				c.Class("recomputed_accepted")
 				c.Distinctf("%s:recomputed:%d", is.name, ti)
+			}
+			// authenticators from RELATED derivations under the same key: the non-verifiable (base) OPRF mode, the
+			// partially oblivious mode with empty and non-empty info, the other suite's hash over the same key bytes where the
+			// key decodes there, the evaluation of a prefix/suffix of the input, of the input with the authenticator appended.
+			// None of them is the VOPRF evaluation of the fields as carried, so each must be rejected.
+			if c.Next() {
+				input := ref.TokenInput(base.TokenType, base.Nonce, base.Context, base.KeyID)
+				rel := map[string][]byte{}
+				if o, err := oprf.NewServer(is.suite, is.key).FullEvaluate(input); err == nil {
+					rel["base-mode-oprf"] = o
+				}
+				for iname, info := range map[string][]byte{"poprf-empty-info": {}, "poprf-info": []byte("legacy")} {
+					if o, err := oprf.NewPartialObliviousServer(is.suite, is.key).FullEvaluate(input, info); err == nil {
+						rel[iname] = o
+					}
+				}
+				rel["voprf-of-input-prefix"] = RefVOPRF(is.suite, is.key, input[:len(input)-1])
+				rel["voprf-of-input-without-type"] = RefVOPRF(is.suite, is.key, input[2:])
+				rel["voprf-of-empty-input"] = RefVOPRF(is.suite, is.key, nil)
+				rel["voprf-of-nonce-only"] = RefVOPRF(is.suite, is.key, base.Nonce)
+				rel["voprf-of-input-and-authenticator"] = RefVOPRF(is.suite, is.key, append(clone(input), base.Authenticator...))
+				for cls, a := range rel {
+					if a == nil || bytes.Equal(a, base.Authenticator) {
+						continue
+					}
+					t := cloneToken(base)
+					t.Authenticator = a
+					c10Check(c, is, t, "related-derivation:"+cls, true)
+					c.Class("related_derivation_rejected")
+				}
+				c.Distinctf("%s:related:%d", is.name, ti)
 			}
 			// hostile field lengths
 			if c.Next() {
